@@ -221,3 +221,34 @@ Proof.
               (conj (proj1 (proj2 combined_change_breaks_agreement)) (proj2 (proj2 combined_change_breaks_agreement)))))).
 Qed.
 Print Assumptions C19_premises_needed.
+
+(** * C19 — "a member that joins later learns all active actors", while the
+    membership change is still spreading *)
+From HV Require JoinSpread JoinSpreadProofs.
+
+(* Model JoinSpread.v: m old members, a joiner, any list of operations — the new
+   member list reaches the agents in any order and grouping (Tell), old members
+   activate in between (Act), those that know the joiner already broadcasting
+   to it and the others not.  If the n-th operation is an activation that
+   returned the PID on host h, then, once every old member has been told, every
+   old member and the joiner resolve that key to host h. *)
+Theorem C19_join_that_spreads_everyone_learns :
+  forall (m : nat) (ops : list JoinSpread.op) (n who k sel h : nat),
+    nth_error ops n = Some (JoinSpread.Act who k sel) ->
+    nth_error (snd (JoinSpread.run m JoinSpread.init ops)) n = Some (JoinSpread.RPid h) ->
+    let s := fst (JoinSpread.run m JoinSpread.init ops) in
+    JoinSpread.all_told m s = true ->
+    (forall i, i < m -> JoinSpread.omaps s i k = Some h) /\ JoinSpread.jmap s k = Some h.
+Proof. exact JoinSpreadProofs.join_spread_everyone_learns. Qed.
+Print Assumptions C19_join_that_spreads_everyone_learns.
+
+(* the same in the vocabulary of the observation the check compares (GetActiveByID per member,
+   host + 1): what StaggerExec.oracle demands of the implementation holds of every model run *)
+Theorem C19_join_that_spreads_views :
+  forall (m nk : nat) (ops : list JoinSpread.op) (n who k sel h : nat),
+    nth_error ops n = Some (JoinSpread.Act who k sel) ->
+    nth_error (snd (JoinSpread.run m JoinSpread.init ops)) n = Some (JoinSpread.RPid h) ->
+    k < nk -> JoinSpread.all_told m (fst (JoinSpread.run m JoinSpread.init ops)) = true ->
+    forall v, In v (JoinSpread.views m nk (fst (JoinSpread.run m JoinSpread.init ops))) -> nth_error v k = Some (S h).
+Proof. exact JoinSpreadProofs.join_spread_views. Qed.
+Print Assumptions C19_join_that_spreads_views.
